@@ -165,8 +165,17 @@ def classify(diags, raw, sm, woven_src):
         if d["level"] != "error" and "recommendation not met" not in msg:
             continue
         prim = [s for s in d.get("spans", []) if s.get("is_primary")] or d.get("spans", [])
+        def _unit_of(spans):
+            for s in spans[:1]:
+                try:
+                    rel = os.path.relpath(s["file_name"], woven_src)
+                    u = sm.unit_at(rel, s["byte_start"])
+                    return u["unit"] if u else None
+                except (KeyError, ValueError):
+                    return None
+            return None
         if d.get("code"):
-            undecided.append({"reason": "rustc-error", "message": msg, "code": d["code"].get("code"),
+            undecided.append({"reason": "rustc-error", "message": msg, "code": d["code"].get("code"), "unit": _unit_of(prim),
                               "where": ["%s:%s" % (s["file_name"], s["line_start"]) for s in prim][:2]})
             continue
         kind = None
@@ -178,7 +187,7 @@ def classify(diags, raw, sm, woven_src):
             if RLIMIT_RE.search(msg):
                 undecided.append({"reason": "rlimit", "message": msg})
             elif UNSUPPORTED_RE.search(msg):
-                undecided.append({"reason": "unsupported", "message": msg,
+                undecided.append({"reason": "unsupported", "message": msg, "unit": _unit_of(prim),
                                   "where": ["%s:%s" % (s["file_name"], s["line_start"]) for s in prim][:2]})
             else:
                 undecided.append({"reason": "unknown-diagnostic", "message": msg,
@@ -459,8 +468,13 @@ def do_replay(prop, a):
 
 def decide(prop, tier, seed, a, rundir, woven, t0):
     import props
+    return decide_with(prop, tier, seed, a, rundir, woven, t0, {}, 0)
+
+
+def decide_with(prop, tier, seed, a, rundir, woven, t0, forced, round_):
+    import props
     try:
-        meta = weave_mod.weave(a.repo, woven)
+        meta = weave_mod.weave(a.repo, woven, force_degraded=forced)
     except WeaveError as e:
         # anchor lost / rule not applicable: the deductive check cannot be run on this tree.
         # Bounded stand-in: search the input families for a concrete failing input on the real code.
@@ -503,6 +517,21 @@ def decide(prop, tier, seed, a, rundir, woven, t0):
         return 2
     diags, raw = parse_diags(se)
     failures, undecided = classify(diags, raw, sm, os.path.join(woven, "src"))
+    # W11, second trigger: the woven text of a unit does not compile / is outside Verus' subset on this tree (a
+    # renamed local that a ghost block mentions, a new construct).  If every such diagnostic lies inside a unit,
+    # the recipes of those units are degraded to trusted contracts and the run is repeated (at most 3 rounds).
+    if undecided and round_ < 3 and os.environ.get("VERIF_NO_DEGRADE") != "1" and not tree_is_baseline(a.repo):
+        hard = [u for u in undecided if u["reason"] in ("rustc-error", "unsupported")]
+        recs = {}
+        for u in hard:
+            unit = meta["units"].get(u.get("unit") or "")
+            if unit and unit.get("recipe") and not unit["recipe"].startswith("a00"):
+                recs[unit["recipe"]] = "%s in the woven text of %s: %s" % (u["reason"], unit["unit"], u.get("message", "")[:120].replace("\n", " "))
+        if hard and len(hard) == len(undecided) and recs and all((meta["units"].get(u.get("unit") or "") or {}).get("recipe") in recs for u in hard) and not set(recs) <= set(forced):
+            nf = dict(forced)
+            nf.update(recs)
+            shutil.rmtree(woven, ignore_errors=True)
+            return decide_with(prop, tier, seed, a, rundir, woven, t0, nf, round_ + 1)
     # retry unstable proofs: a failure that disappears under another seed / larger rlimit is not a failure
     known0 = load_known()
     fresh = [f for f in failures if not any(match_known(f, known0, p) for p in f["tags"])]
